@@ -47,7 +47,7 @@ var props = map[string]propSpec{
 		{Pkg: "protocol", Fn: "VerifC02Fetch", Validate: 8, MustReach: []string{"accept-returned"}, Panics: true},
 	}, Assumptions: with("TLS handshake contract model (DESIGN 3.5); native twin is a real crypto/tls client over net.Pipe"), Explanation: "real InterceptingListener.Accept under the handshake contract model with an adversarial peer"},
 	"C03": {Harnesses: []harnessSpec{
-		{Pkg: "registration", Fn: "VerifC03Validate", Validate: 16, MustReach: []string{"accepted", "rejected"}, Panics: true},
+		{Pkg: "registration", Fn: "VerifC03Validate", Validate: 16, MustReach: []string{"accepted", "rejected"}, Panics: true, CrossSolver: "z3"},
 		{Pkg: "registration", Fn: "VerifC03EntryPoints", Validate: 16, MustReach: []string{"authorize-accepted", "authorize-rejected", "fetch-done"}, Panics: true},
 		{Pkg: "registration", Fn: "VerifC03NodeSide", Validate: 4, MustReach: []string{"own-request-accepted", "own-request-rejected"}},
 	}, Assumptions: with(), Explanation: "validateFetchRequestCommon with every bundle field, signature provenance, skew and clock symbolic"},
@@ -61,7 +61,7 @@ var props = map[string]propSpec{
 	}, Assumptions: with("clock assumption: the honest flow finishes within 1 s of symbolic time (vf.ShortScenario)", "the symbolic run uses the harness's marshal-based storage; file and store-once back ends are covered by C19"),
 		Explanation: "the four honest enrollment flows from SSA (storage wrappers on/off on both sides, application state on/off) with every issued certificate inspected; node-side refusal of foreign or wrong-nonce responses; full-entropy server key"},
 	"C05": {Harnesses: []harnessSpec{
-		{Pkg: "tls", Fn: "VerifC05KeyIdPath1", Validate: 8, MustReach: []string{"gate-passed", "rejected"}, Panics: true},
+		{Pkg: "tls", Fn: "VerifC05KeyIdPath1", Validate: 8, MustReach: []string{"gate-passed", "rejected"}, Panics: true, CrossSolver: "z3"},
 		{Pkg: "tls", Fn: "VerifC05KeyIdPath2", Validate: 8, MustReach: []string{"gate-passed", "rejected"}, Panics: true},
 		{Pkg: "tls", Fn: "VerifC05NodeIdPath0", Validate: 4, MustReach: []string{"rejected"}, Panics: true},
 		{Pkg: "tls", Fn: "VerifC05NodeIdPath1", Validate: 8, MustReach: []string{"gate-passed", "rejected"}, Panics: true},
@@ -79,11 +79,11 @@ var props = map[string]propSpec{
 	}, Assumptions: with("client-side TLS handshake contract model (DESIGN 3.5): with InsecureSkipVerify the only guards are VerifyConnection and the server's proof of possession of its leaf key; native twin: a real crypto/tls server (vf.RogueServerConn)", "net.Dialer, real sockets and the pending-authorization path of protocol.Dial (attemptFetch) are outside this check"),
 		Explanation: "real ClientConfigs (nonce, signing, ALPN assembly, chain filtering) and its VerifyConnection / GetClientCertificate callbacks against rogue servers (stale certificate for another nonce, foreign root, self-signed, another node's certificate; with or without the leaf key) for each configuration and dial option set; and against the node's own server when only one of its two roots survives"},
 	"C08": {Harnesses: []harnessSpec{
-		{Pkg: "rotation", Fn: "VerifC08Rotate", Validate: 16, MustReach: []string{"nothing", "promote", "remint", "startover"}},
+		{Pkg: "rotation", Fn: "VerifC08Rotate", Validate: 16, MustReach: []string{"nothing", "promote", "remint", "startover"}, CrossSolver: "z3"},
 	}, Assumptions: with("clock assumption: one rotation call takes < 100 ms and ends before the promoted root expires"), Explanation: "one RotateRootCertificates call from arbitrary stored windows"},
 	"C09": {Harnesses: []harnessSpec{
-		{Pkg: "rotation", Fn: "VerifC09Base", Validate: 1, MustReach: []string{"end"}},
-		{Pkg: "rotation", Fn: "VerifC09Step", Validate: 4, MustReach: []string{"returned", "promoted", "unchanged"}},
+		{Pkg: "rotation", Fn: "VerifC09Base", Validate: 1, MustReach: []string{"end"}, CrossSolver: "z3"},
+		{Pkg: "rotation", Fn: "VerifC09Step", Validate: 4, MustReach: []string{"returned", "promoted", "unchanged"}, CrossSolver: "z3"},
 		{Pkg: "rotation", Fn: "VerifC09NodeLemma", Validate: 4, MustReach: []string{"end", "bound-is-tight-at-2R"}},
 	}, Assumptions: with("induction on the real step function: (1) empty storage establishes INV, (2) INV is preserved by one call made within the cadence bound and trust is never reset, (3) node lemma over up to three server calls from an arbitrary INV state", "INV (mine): current valid at the last call, next begins before current ends, both windows have length S-nb, next ends at least S after the last call", "clock: non-decreasing readings; everything that is not an explicit wait takes < 1 s; waits are symbolic (vf.Sleep) and witnesses that need hours of waiting are not replayed natively", "the strict bound t < te + R is asserted; equality is outside the claim"),
 		Explanation: "histories of any length via base + inductive step on the real RotateRootCertificates; node lemma with a real AuthorizeNode enrollment (actual certificate windows) and the tightness twin at 2R"},
@@ -106,7 +106,7 @@ var props = map[string]propSpec{
 	}, Assumptions: with("secrecy is a derivability check on provenance terms (a secret may reach storage only below an AEAD seal or a one-way function); natively replayed as bytes.Contains on the marshalled message", "the storage wrapper is a real go-kms-wrapping aead wrapper executed from SSA"),
 		Explanation: "Store/Load of all four record types with a storage wrapper over a recording storage: secrecy of every private key / nonce / creation time, round trip, refusal without or with another wrapper, transplanted sealed fields"},
 	"C13": {Harnesses: []harnessSpec{
-		{Pkg: "rotation", Fn: "VerifC13RotateFaults", Validate: 16, MustReach: []string{"fault-hit", "success", "error"}},
+		{Pkg: "rotation", Fn: "VerifC13RotateFaults", Validate: 16, MustReach: []string{"fault-hit", "success", "error"}, CrossSolver: "z3"},
 		{Pkg: "rotation", Fn: "VerifC13NodeRotationFaults", Loop: 16, Validate: 8, MustReach: []string{"fault-hit", "rotated", "failed"}},
 		{Pkg: "registration", Fn: "VerifC13AuthorizeFaults", Validate: 8, MustReach: []string{"fault-hit", "authorized", "failed"}},
 		{Pkg: "registration", Fn: "VerifC13NodeLedFetchFaults", Validate: 8, MustReach: []string{"fault-hit", "issued", "not-issued"}},
@@ -119,6 +119,7 @@ var props = map[string]propSpec{
 		Explanation: "nine flows (root rotation with and without reinitialisation, node rotation, authorize, node-led fetch, wrapper fetch, token creation, token fetch, node-side create/handle, server-certificate generation) over a fault injector with symbolic failing-operation index and error kind"},
 	"C14": {Harnesses: []harnessSpec{
 		{Pkg: "protocol", Fn: "VerifC14ArbitraryAlpn", Validate: 8, MustReach: []string{"end"}, Panics: true},
+		{Pkg: "protocol", Fn: "VerifC14ArbitraryAlpn4", Validate: 8, MustReach: []string{"end"}, Panics: true, ThoroughOnly: true, ShardBits: 4},
 		{Pkg: "protocol", Fn: "VerifC14ArbitraryAlpnReal", Validate: 8, MustReach: []string{"end"}, Panics: true},
 		{Pkg: "protocol", Fn: "VerifC14Accept", Validate: 16, MustReach: []string{"peer-rejected", "peer-accepted", "end"}, Panics: true, ShardBits: 2},
 		{Pkg: "protocol", Fn: "VerifC14AcceptThenHonest", Validate: 8, MustReach: []string{"peer-rejected", "honest-node-connected"}, Panics: true, ShardBits: 3},
@@ -142,6 +143,9 @@ var props = map[string]propSpec{
 		{Pkg: "storage/inmem", Fn: "VerifC19InmemStep", Validate: 16, MustReach: []string{"end"}},
 		{Pkg: "storage/file", Fn: "VerifC19FileStep", Validate: 16, MustReach: []string{"end"}},
 		{Pkg: "storage/testing", Fn: "VerifC19StoreOnceStep", Validate: 16, MustReach: []string{"end"}},
+		{Pkg: "storage/inmem", Fn: "VerifC19InmemStep3", Validate: 16, MustReach: []string{"end"}, ThoroughOnly: true, ShardBits: 4},
+		{Pkg: "storage/file", Fn: "VerifC19FileStep3", Validate: 16, MustReach: []string{"end"}, ThoroughOnly: true, ShardBits: 4},
+		{Pkg: "storage/testing", Fn: "VerifC19StoreOnceStep3", Validate: 16, MustReach: []string{"end"}, ThoroughOnly: true, ShardBits: 4},
 	}, Assumptions: with("sequential histories only (the concurrent clause for the in-memory back end is not decided)", "ids are path-safe: non-empty, no '/', not '.' or '..' (true of every id the library generates)", "the radix tree and the file system are abstract maps (go-radix Insert/Get/Delete/DeletePrefix/ToMap; os WriteFile/ReadFile/Remove/Open+Readdirnames/OpenFile+Write); listing order is not decided",
 		"inductive step: any history of operations leaves a state that is a finite typed map; the pre-state here holds two arbitrary entries"),
 		Explanation: "inductive step of 'typed key-value map' for the in-memory, file and store-once back ends: arbitrary two-entry pre-state (types, ids, contents symbolic), one arbitrary operation on the real back-end code, compared with a reference map written in the harness"},
@@ -150,7 +154,8 @@ var props = map[string]propSpec{
 		{Pkg: "tls", Fn: "VerifC20InterleavedFetch", Loop: 12, Validate: 8, MustReach: []string{"end"}, Panics: true},
 		{Pkg: "tls", Fn: "VerifC20InterleavedAuth", Loop: 12, Validate: 8, MustReach: []string{"end"}, Panics: true},
 		{Pkg: "tls", Fn: "VerifC20Malformed", Validate: 4, MustReach: []string{"end"}, Panics: true},
-		{Pkg: "tls", Fn: "VerifC20Lemma267", Validate: 0, Panics: true},
+		{Pkg: "tls", Fn: "VerifC20Lemma267", Validate: 0, Panics: true, CrossSolver: "z3"},
+		{Pkg: "tls", Fn: "VerifC20Chunks20", Loop: 24, Validate: 2, MustReach: []string{"end"}, Panics: true, ThoroughOnly: true},
 	}, Assumptions: with("strings are byte sequences (code points 0..255); UTF-8 decoding ([]rune conversions, range over string) is not encoded", "the ClientHello limit is taken as 268 entries (65535 / minimal entry size); the per-chunk lemma covers chunk indices 0..267"),
 		Explanation: "whole-function round trip for 1..4 chunks with symbolic content and length, the same with two unrelated names interleaved at arbitrary positions for both request prefixes, arbitrary malformed entries, and the per-chunk inductive lemma by loop cut up to the ClientHello limit"},
 }
